@@ -46,7 +46,14 @@ At   == Len(before) + 1                           \* position of the key under t
 Init == /\ key \in Keys /\ spelling \in Spellings /\ location \in Locations /\ alsoGit \in BOOLEAN
         /\ before \in SeqsUpTo(Neighbours, MaxBefore) /\ after \in SeqsUpTo(Neighbours, MaxAfter)
         \* Thin: neighbours are only combined with the plain spelling/location/no overlay
-        /\ (Thin /\ (before # <<>> \/ after # <<>>)) => (spelling = "lower" /\ location = "worktree" /\ ~alsoGit)
+        /\ (Thin /\ (before # <<>> \/ after # <<>>)) => (spelling = "lower" /\ location = "worktree")
+        \* "ctx.samekey": the key under test a second time, with the very value Git's configuration has for
+        \* it (so only with the overlay, and only for keys that are kept at all); otherwise no overlay
+        /\ LET same == \E j \in DOMAIN before : before[j].name = "ctx.samekey"
+               sameAfter == \E j \in DOMAIN after : after[j].name = "ctx.samekey"
+           IN /\ ~sameAfter
+              /\ (same => (alsoGit /\ key.doc /\ Len(before) = 1 /\ after = <<>>))
+              /\ ((Thin /\ ~same /\ (before # <<>> \/ after # <<>>)) => ~alsoGit)
         /\ form \in Forms
         \* the suffixed form is only of interest for keys that are not allowed by themselves, on its own
         /\ (form = "access-suffix" => (~key.doc /\ before = <<>> /\ after = <<>> /\ spelling = "lower" /\ location = "worktree"))
